@@ -1,11 +1,12 @@
 (* C17 - bound-driven search, ordering and separation are correct.
    Statements only; proofs live in GT.SearchProofs.  Items are schedules (SearchSpec.v): "cost intervals that
    tighten soundly at arbitrary rates" is `Forall wf_sched`.  `ties`, `ops`, `hints` are the address-, hash- and
-   heap-structure-dependent choices of the implementation: universally quantified adversary inputs.  Every model
+   heap-structure-dependent choices of the implementation: universally quantified adversary inputs (bounds.sort has
+   only the id() order left: its heap is modelled in full).  Every model
    function runs on explicit fuel; `fuel_for items` = total schedule length + 2 per item + 4 suffices, so each
    statement includes termination (the answer is `Done`, never `OutOfFuel`/`Crash`/`Unmodelled`). *)
-From Coq Require Import List Bool ZArith.
-Require Import GT.BoundsSpec GT.SearchSpec GT.SearchModel GT.SearchProofs.
+From Coq Require Import List Bool ZArith Permutation.
+Require Import GT.BoundsSpec GT.SearchSpec GT.SearchModel GT.SearchProofs GT.SortModel GT.SortProofs.
 Import ListNotations.
 Open Scope Z_scope.
 
@@ -27,11 +28,51 @@ Theorem C17_min : forall items ties fuel,
                holds_min items (OItem r) = true.
 Proof. exact C17_min_model. Qed.
 
-(* sort: partial - the Fibonacci heap is a validated oracle (see SearchProofs.v).  For every sequence of key
-   comparisons and pops the heap may perform, the auto-tightening comparisons terminate and, unless a pop is not
-   justified by the comparison outcomes so far or the heap stops early (BadTrace), the output is a permutation of
-   the input in non-decreasing order of final value. *)
-Theorem C17_sort_partial : forall items ops fuel,
+(* sort, unconditional: the full model of bounds.sort - graphtage's Fibonacci heap (the structure-exact model of C16,
+   restated over a comparison oracle with state, SortModel.v) driven by the auto-tightening BoundedComparator.__lt__ -
+   terminates without error for every collection of sound items and every id() order `ties`, and returns a
+   permutation of the input in non-decreasing order of final value.  `hops` is the model's log of key comparisons
+   and pops, `m'` the item states afterwards (sound tightenings of the inputs). *)
+Theorem C17_sort : forall items ties fuel,
+  Forall (fun s => wf_sched s = true) items -> (fuel_for items <= fuel)%nat ->
+  exists l m' hops, heap_sort fuel (mkMs items []) (seq 0 (length items)) ties = Done (l, m', hops) /\
+                    evolves (mkMs items []) m' /\ holds_sort items (OList l) = true.
+Proof. exact C17_sort_model. Qed.
+
+(* the step that makes C17_sort possible: C16's push/pop fragment generalised from "a fixed strict total order on the
+   keys" to a key comparison that is an oracle with side effects.  `le s a b` = "in state s, a is established to be at
+   most b"; a True answer to `a < b` establishes le a b, a False answer le b a; established facts survive later states
+   and are confirmed when asked again; nothing else (no antisymmetry, no stable answers, self-comparisons allowed).
+   Then "push 0..n-1, pop until empty" never crashes or runs out of fuel and returns a permutation of the items in
+   non-decreasing order of any valuation F that le respects. *)
+Theorem C17_heap_oracle :
+  forall (St : Type) (cmp : St -> nat -> nat -> outcome (bool * St)) (tick : St -> nat -> St) (n : nat)
+         (good : St -> Prop) (ext : St -> St -> Prop) (le : St -> nat -> nat -> Prop) (F : nat -> Z),
+  (forall s, ext s s) ->
+  (forall a b c, ext a b -> ext b c -> ext a c) ->
+  (forall s s', good s -> ext s s' -> good s') ->
+  (forall s a, le s a a) ->
+  (forall s a b c, good s -> le s a b -> le s b c -> le s a c) ->
+  (forall s s' a b, good s -> ext s s' -> le s a b -> le s' a b) ->
+  (forall s a b, good s -> (a < n)%nat -> (b < n)%nat -> le s a b -> F a <= F b) ->
+  (forall s a b, good s -> (a < n)%nat -> (b < n)%nat ->
+     exists r s', cmp s a b = Done (r, s') /\ ext s s' /\
+                  (if r then le s' a b else le s' b a) /\ (le s a b -> r = true)) ->
+  (forall s i, good s -> ext s (tick s i)) ->
+  forall s, good s ->
+  exists l s', osort St cmp tick s (seq 0 n) = Done (l, s') /\ ext s s' /\
+               Permutation l (seq 0 n) /\ nondecreasing (map F l) = true.
+Proof. exact osort_spec. Qed.
+
+(* a sort run of the implementation that corresponds to the full model (same output, same tighten_bounds() calls, same
+   comparisons and pops) satisfies the property *)
+Theorem C17_sort_corr : forall c, c_op c = OpSort -> corr_sort c = true -> holds_C17 c = true.
+Proof. exact C17_sort_corr_holds. Qed.
+
+(* kept from the first version (no longer needed for C17_sort): soundness of trace validation - whatever sequence of
+   key comparisons and pops a heap performs, if every pop is justified by the comparison outcomes so far and
+   everything is popped, the output is sorted; otherwise the trace is rejected (BadTrace) *)
+Theorem C17_sort_trace : forall items ops fuel,
   Forall (fun s => wf_sched s = true) items -> (fuel_for items <= fuel)%nat ->
   match sort_model fuel (mkMs items []) (seq 0 (length items)) ops with
   | Done (l, m') => holds_sort items (OList l) = true
@@ -59,9 +100,23 @@ Theorem C17_search : forall items hints fuel,
                  evolves (mkMs items []) m' /\ holds_search items (OSearch (Some b) r rets) = true.
 Proof. exact C17_search_model. Qed.
 
+(* `for node in list(self._untightened.min_node)` - modelling only the first node is without loss of generality: let
+   the rest of that loop be ANY function `alt` of the state reached when heap._min's tighten_bounds() returns False
+   (search_g); for sound items the result is the one of C17_search for every `alt`: the continuation is dead code *)
+Theorem C17_search_first_node : forall alt items hints fuel,
+  Forall (fun s => wf_sched s = true) items -> items <> [] -> (fuel_for items <= fuel)%nat ->
+  exists b r rets m', search_g alt fuel (mkMs items []) (seq 0 (length items)) hints = Done (Some b, r, rets, m') /\
+                 search fuel (mkMs items []) (seq 0 (length items)) hints = Done (Some b, r, rets, m') /\
+                 evolves (mkMs items []) m' /\ holds_search items (OSearch (Some b) r rets) = true.
+Proof. exact C17_search_general. Qed.
+
 Print Assumptions C17_lt.
 Print Assumptions C17_le.
 Print Assumptions C17_min.
-Print Assumptions C17_sort_partial.
+Print Assumptions C17_sort.
+Print Assumptions C17_heap_oracle.
+Print Assumptions C17_sort_corr.
+Print Assumptions C17_sort_trace.
 Print Assumptions C17_distinct.
 Print Assumptions C17_search.
+Print Assumptions C17_search_first_node.
